@@ -25,6 +25,12 @@ for kind, cap in (("HashMap", 1), ("HashMap", 3), ("HashSet", 1), ("HashSet", 3)
         U("find" + tag, "h_find", "w_HashMap_find", ["find.hit", "find.miss_after_collisions"], defs=["NV_CAP=%d" % cap, "NDEBUG"] + KD, name=PFX + "find" + tag,
           cbmc=["--unwind", "4", "--unwinding-assertions"], bound="bucket chain <= 2 nodes"),
     ]
+for kind in ("HashMap", "HashSet"):
+    KD = ["NV_HASHSET"] if kind == "HashSet" else []
+    UNITS += [
+        U("assign@self.bounded", "h_b_assign", None, ["b_assign.self"], defs=["NV_CAP=1", "NDEBUG", "NV_ALIAS=1"] + KD, name=kind + ".assign@self.bounded", kind="bounded",
+          bound="table of at most 1 entry assigned to itself", cbmc=["--unwind", "6", "--unwinding-assertions"], timeout=3000),
+    ]
 TRUSTED = ["cbmc 6.11.0 / goto-instrument DFCC / CaDiCaL", "goto-cc C++ front end; HashMap.hpp with compat rule R1, -DNDEBUG (ASSERT/VERIFY macros off)"]
 ASSUMPTIONS = [
     "HashMap<long,long>, HashSet<long> and PoolMap<unsigned long,long> are covered (same harness, -DNV_HASHSET / -DNV_POOLMAP)",
@@ -32,6 +38,6 @@ ASSUMPTIONS = [
     "capacity 1 (every key collides) and 3; order list, free list and other buckets are arbitrary -- these two units are proofs relative to that chain bound",
     "remove(iterator): no bound (no loop)",
     "hash(long) = (usize)value as in Base.hpp",
-    "whole-table agreement with a reference insertion-ordered map over operation histories is NOT checked (a bounded harness exists in harness/hashmap.cpp, h_b_history, but cbmc returns solver errors on it); it follows from the step contracts by induction over operations (paper)",
+    "assignment of a table to itself is checked on tables of at most 1 entry (bounded units; assignment from another table exceeds cbmc's memory); whole-table agreement with a reference insertion-ordered map over operation histories is NOT checked (a bounded harness exists in harness/hashmap.cpp, h_b_history, but cbmc returns solver errors on it); it follows from the step contracts by induction over operations (paper)",
 ]
 EXPLANATION = "Step contracts for HashMap insert/remove/find with exact frames over symbolic neighbourhoods; bounded history check against a reference map."
